@@ -43,6 +43,8 @@ type Case struct {
 	Tree    []BlockSpec `json:"tree"`
 	Batches [][]int     `json:"batches"`
 	Crash   []bool      `json:"crash,omitempty"` // enumerate the crash points of this batch (default: all)
+	Amp     int         `json:"amp,omitempty"`   // batches report ValueSize() multiplied by this (size thresholds fire early)
+	Big     bool        `json:"big,omitempty"`   // real-size case: oracle only (not sent to the Coq model), further block only where crash points are enumerated
 	Comment string      `json:"comment,omitempty"`
 }
 
@@ -405,6 +407,7 @@ func (w *world) batch(ix []int) types.Blocks {
 // runs the first n batches on a fresh node, then the further block; returns the head
 func (w *world) reference(c Case, n int, further *types.Block) uint64 {
 	db := newLogDB()
+	db.amp = c.Amp
 	gspec().MustCommit(db)
 	bc, err := newChainOn(w, db)
 	if err != nil {
@@ -447,6 +450,7 @@ func (w *world) damage(db *logDB, head *types.Block, c Case, res *vf.Result, hit
 			d.Roots = append(d.Roots, w.rootID[r])
 		}
 		cdb := restore(m)
+		cdb.amp = c.Amp
 		cbc, err := newChainOn(w, cdb)
 		genesisLost := false
 		for _, r := range roots {
@@ -483,8 +487,26 @@ func (w *world) damage(db *logDB, head *types.Block, c Case, res *vf.Result, hit
 	return out
 }
 
+// relevantWrite: the write touches something the model knows about
+func (w *world) relevantWrite(wr write) bool {
+	for _, e := range wr.Elems {
+		switch e.Kind {
+		case kPre, kOther:
+		case kNode:
+			if _, ok := w.rootID[e.Hash]; ok {
+				return true
+			}
+		default:
+			return true
+		}
+	}
+	return false
+}
+
 func (w *world) run(c Case, res *vf.Result, hits *[]interface{}) ([]stepRes, []dmgRes) {
 	db := newLogDB()
+	db.amp = c.Amp
+	db.relevant = w.relevantWrite
 	gspec().MustCommit(db)
 	bc, err := newChainOn(w, db)
 	if err != nil {
@@ -621,7 +643,7 @@ func (w *world) run(c Case, res *vf.Result, hits *[]interface{}) ([]stepRes, []d
 		// the further valid block: an empty child of the crash-free head
 		headID := w.blockID[bc.CurrentBlock().Hash()]
 		var further *types.Block
-		if headID == 1 || (int(headID-2) < len(w.specs) && w.valid(int(headID-2))) {
+		if (headID == 1 || (int(headID-2) < len(w.specs) && w.valid(int(headID-2)))) && !(c.Big && len(snaps) == 0) {
 			hb := w.byID[headID]
 			further = w.child(hb, nil, 100+j)
 			sr.Further = w.register(further)
@@ -638,6 +660,7 @@ func (w *world) run(c Case, res *vf.Result, hits *[]interface{}) ([]stepRes, []d
 				res.Count("crash-points in block write")
 			}
 			cdb := restore(snap)
+			cdb.amp = c.Amp
 			cbc, err := newChainOn(w, cdb)
 			if err != nil {
 				addHit(where+"restart failed", j, k+1, err.Error())
@@ -799,10 +822,16 @@ func gen(seed uint64, n int, outDir, corpusDir string) {
 	var sb strings.Builder
 	sb.WriteString("From VF.C11 Require Import Model.\nLocal Open Scope N_scope.\nDefinition cases : list case := [\n")
 	distinct := map[string]bool{}
-	ncases := 0
+	ncases, nbig := 0, 0
 	emit := func(c Case) {
 		w := newWorld(c.Tree)
 		steps, dmg := w.run(c, res, &res.OracleHits)
+		if c.Big {
+			// real-size case: judged by the oracle only
+			res.Count("real-size case (oracle only)")
+			nbig++
+			return
+		}
 		if ncases > 0 {
 			sb.WriteString(";\n")
 		}
@@ -830,6 +859,11 @@ func gen(seed uint64, n int, outDir, corpusDir string) {
 	for ncases < n {
 		emit(randCase(r, res))
 	}
+	// a few real-size cases per run: a re-adopted long branch whose staged lookups cross
+	// youdb.IdealBatchSize without any amplification (one per 900 cases, at least one)
+	for nbig < 1+n/900 {
+		emit(bigCase(r, res))
+	}
 	sb.WriteString("].\nDefinition M := Eval vm_compute in mismatches cases.\nPrint M.\n")
 	vf.WriteFile(filepath.Join(outDir, "Cases.v"), sb.String())
 	res.Cases = ncases
@@ -845,17 +879,18 @@ func replay(file string) {
 		os.Exit(2)
 	}
 	var h struct {
-		Case    *Case       `json:"case"`
-		Tree    []BlockSpec `json:"tree"`
-		Batches [][]int     `json:"batches"`
+		Case *Case `json:"case"`
 	}
+	var c Case
 	if err := json.Unmarshal(b, &h); err != nil {
 		fmt.Println(err)
 		os.Exit(2)
 	}
-	c := Case{Tree: h.Tree, Batches: h.Batches}
 	if h.Case != nil {
 		c = *h.Case
+	} else if err := json.Unmarshal(b, &c); err != nil {
+		fmt.Println(err)
+		os.Exit(2)
 	}
 	res := vf.NewResult("C11", 0)
 	w := newWorld(c.Tree)
@@ -904,6 +939,8 @@ func main() {
 		gen(*seed, *n, *out, *corpus)
 	case "replay":
 		replay(*file)
+	case "calls":
+		callsTranslator(*out)
 	default:
 		fmt.Println("usage: c11 gen|replay")
 		os.Exit(2)
@@ -1094,6 +1131,37 @@ func skipCase(r *vf.Rng, res *vf.Result) Case {
 	return c
 }
 
+// real-size reorg: trunk A1..An with many transactions, a switch to the shorter fork
+// A1-B2 (B2 carries a transaction of its own), then A(n+1) alone: reorg(B2, A(n+1))
+// stages A2..A(n+1) with all their lookups - more than 100 KiB - and the deletion
+// of B2's lookup in one batch.  Crash points are enumerated on the last import only.
+func bigCase(r *vf.Rng, res *vf.Result) Case {
+	var c Case
+	n := 24 + r.Intn(8)
+	per := 100 + r.Intn(30)
+	val := 1
+	p := -1
+	var trunk []int
+	for i := 0; i < n; i++ {
+		s := BlockSpec{Parent: p, Salt: i + 1}
+		for k := 0; k < per; k++ {
+			s.Txs = append(s.Txs, 1+val%3)
+			val++
+		}
+		c.Tree = append(c.Tree, s)
+		p = len(c.Tree) - 1
+		trunk = append(trunk, p)
+	}
+	b2 := len(c.Tree)
+	c.Tree = append(c.Tree, BlockSpec{Parent: trunk[0], Salt: 200, Txs: []int{7}})
+	next := len(c.Tree)
+	c.Tree = append(c.Tree, BlockSpec{Parent: trunk[n-1], Salt: 201, Txs: []int{1}})
+	c.Batches = [][]int{trunk, {trunk[0], b2}, {next}}
+	c.Crash = []bool{false, false, true}
+	c.Big = true
+	return c
+}
+
 // a canonical block without its own state, offered again: the trunk block C1 carries
 // the transactions of X1 and X2 together, so X2's state root is on disk although X1
 // and X2 are only stored; X3 imports directly on X2 and reorg makes X1 canonical
@@ -1146,7 +1214,19 @@ func restateCase(r *vf.Rng, res *vf.Result) Case {
 	return c
 }
 
+// every third case runs with batches that over-report their size by a factor of
+// 2^20: any "flush the batch when it reaches IdealBatchSize" site fires after the
+// first entry, as it would on mainnet-sized data
 func randCase(r *vf.Rng, res *vf.Result) Case {
+	c := randCase0(r, res)
+	if r.Chance(34) {
+		c.Amp = 1 << 20
+		res.Count("case with amplified batch sizes (size thresholds fire early)")
+	}
+	return c
+}
+
+func randCase0(r *vf.Rng, res *vf.Result) Case {
 	if r.Chance(35) {
 		return forkCase(r, res)
 	}
